@@ -5,7 +5,7 @@
 # check that looks at the touched code, restore /repo. Every check must stay silent (exit 0).
 cd "$(dirname "$0")/.." || exit 2
 P="$1"; X="$2"
-SRC=${SEED_BASE:-/tmp/seed9}/$P-out/$X
+SRC=${SEED_BASE:-/tmp/seed9}/$P-out/$X; TAG=${KEEP_TAG:-}
 [ -f "$SRC/patch.diff" ] || { echo "no $SRC/patch.diff"; exit 2; }
 W=/tmp/seedconfirm/$P-$X-keep
 rm -rf "$W"; git -C /repo worktree prune; git -C /repo worktree add -q --detach "$W" HEAD || exit 2
@@ -15,7 +15,7 @@ trap cleanup EXIT
 lib=$(cd "$W" && cargo test --offline --lib 2>&1 | grep -E "^test result" | head -1)
 echo "patched lib: $lib"
 echo "$lib" | grep -q "ok. 88 passed; 0 failed" || { echo "NOT CONFIRMED (suite does not pass)"; exit 3; }
-D=preserving/$P-$X; mkdir -p "$D"; cp "$SRC/patch.diff" "$SRC/notes.json" "$D/" 2>/dev/null
+D=preserving/$P-$X$TAG; mkdir -p "$D"; cp "$SRC/patch.diff" "$SRC/notes.json" "$D/" 2>/dev/null
 if grep -q "^+++ b/src/aml.rs" "$SRC/patch.diff"; then SET="C06 C07 C08 C09 C10 C14 C15 C16 C18"; else SET="C01 C02 C03 C04 C05 C11 C12 C13 C14 C17 C18"; fi
 echo "$SET" | grep -qw "${P:0:3}" || SET="${P:0:3} $SET"
 [ -n "$(git -C /repo status --porcelain --untracked-files=no)" ] && { echo "repo dirty, refusing"; exit 2; }
@@ -28,7 +28,7 @@ for q in $SET; do
 "
 done
 git -C /repo checkout -q -- .
-python3 - "$P-$X" "$SRC/notes.json" "$D/meta.json" "$lib" "$res" <<'PY'
+python3 - "$P-$X$TAG" "$SRC/notes.json" "$D/meta.json" "$lib" "$res" <<'PY'
 import json,sys
 i,notes,out,lib,res=sys.argv[1:6]
 try: n=json.load(open(notes))
